@@ -81,7 +81,8 @@ fn render(sc: &Value, b: usize, part: &str, t: usize) -> (Vec<f32>, bool) {
 	let mut sim = Sim::new(Capacities::default(), with_fx!(MainTrackBuilder::new(), e(0)), b, SR);
 	let send = sim.manager.add_send_track(with_fx!(SendTrackBuilder::new(), e(3))).unwrap();
 	let mut a = sim.manager.add_sub_track(with_fx!(TrackBuilder::new().with_send(&send, Decibels(-3.0)), e(1))).unwrap();
-	let mut bt = a.add_sub_track(with_fx!(TrackBuilder::new().volume(Decibels(-2.0)), e(2))).unwrap();
+	// (the leaf track has a route of its own: once its sound has ended it is an idle track with an effect tail and a send)
+	let mut bt = a.add_sub_track(with_fx!(TrackBuilder::new().volume(Decibels(-2.0)).with_send(&send, Decibels(-5.0)), e(2))).unwrap();
 	for (i, tr) in [&mut a, &mut bt].into_iter().enumerate() {
 		let mut st = StaticSoundSettings::new()
 			.playback_rate(PlaybackRate(sc["rates"][i].as_u64().unwrap() as f64 / 256.0))
